@@ -439,9 +439,39 @@ def probe_cross_kind():
     return any(isinstance(n, A.Field) and n.name.value == "inner" for n in seen)
 
 
+def probe_chain_skip():
+    """Is a SkipNode raised by a chain member the raiser's own (the other members enter in order and are left in reverse,
+    True) or does it abort the loop (later members not run, nobody left, False)? Observed on the real code."""
+    from py_gql.lang import parse
+    import py_gql.lang.ast as A
+    from py_gql.lang.visitor import ASTVisitor, ChainedVisitor, SkipNode
+    log = []
+
+    class R(ASTVisitor):
+        def __init__(self, t, skip):
+            self.t, self.skip = t, skip
+
+        def enter(self, node):
+            if isinstance(node, A.Field):
+                log.append((self.t, "enter"))
+                if self.skip:
+                    raise SkipNode()
+            return node
+
+        def leave(self, node):
+            if isinstance(node, A.Field):
+                log.append((self.t, "leave"))
+    try:
+        ChainedVisitor(R(0, False), R(1, True), R(2, False)).visit(parse("{ a }"))
+    except Exception:  # noqa
+        return False
+    return log == [(0, "enter"), (1, "enter"), (2, "enter"), (2, "leave"), (0, "leave")]
+
+
 def get_table():
     t = _get_table()
     t["cross_kind"] = probe_cross_kind()
+    t["chain_personal_skip"] = probe_chain_skip()
     return t
 
 
@@ -557,6 +587,9 @@ def to_lean(t):
     L.append("/-- the wrapper runs the method of the class of the node RETURNED by `enter` when that class differs from the")
     L.append("    argument's (observed on the real code by `probe_cross_kind`; true with proposed fix C18-W7) -/")
     L.append("def crossKind : Bool := %s" % ("true" if t.get("cross_kind") else "false"))
+    L.append("")
+    L.append("/-- `ChainedVisitor`: a member's SkipNode is the raiser's own (observed by `probe_chain_skip`; true with proposed fix C18-W8) -/")
+    L.append("def chainPersonalSkip : Bool := %s" % ("true" if t.get("chain_personal_skip") else "false"))
     L.append("")
     L.append("def table : Table := { methods := methods, visit := visitDispatch, dispatchers := dispatchers, slots := slots, crossKind := crossKind }")
     L.append("")
